@@ -47,6 +47,14 @@ type Env struct {
 	hsink  *[]*Term // ground hypotheses produced by spec functions
 	errs   []string
 	depth  int
+	pkg    *types.Package // package whose scope resolves unqualified names (callee contracts); nil: the function's own
+}
+
+func (e *Env) scopePkg() *types.Package {
+	if e.pkg != nil {
+		return e.pkg
+	}
+	return e.ex.fn.Pkg.Pkg
 }
 
 func (e *Env) child() *Env {
@@ -383,14 +391,14 @@ func (e *Env) ident(name string) TV {
 			return tv
 		}
 	}
-	if tv, ok := e.pkgIdent(e.ex.fn.Pkg.Pkg, name); ok {
+	if tv, ok := e.pkgIdent(e.scopePkg(), name); ok {
 		return tv
 	}
 	return e.fail("unknown identifier %s", name)
 }
 
 func (e *Env) qualified(pkg, name string) (TV, bool) {
-	for _, imp := range e.ex.fn.Pkg.Pkg.Imports() {
+	for _, imp := range e.scopePkg().Imports() {
 		if imp.Name() == pkg {
 			return e.pkgIdent(imp, name)
 		}
@@ -433,7 +441,7 @@ func (e *Env) pkgIdent(pkg *types.Package, name string) (TV, bool) {
 	case *types.Var:
 		if isErrorType(o.Type()) {
 			n := name
-			if pkg != e.ex.fn.Pkg.Pkg {
+			if pkg.Name() != "rjson" {
 				n = pkg.Name() + "." + name
 			}
 			return TV{V: globalErr(n)}, true
@@ -637,7 +645,7 @@ func (e *Env) call(n *ast.CallExpr) TV {
 		case "rp":
 			return TV{V: App("rp."+fid.Name, BV(64), arr, sv.Off, sv.Len), Signed: true}
 		default:
-			f := e.ex.eng.lookupFunc(e.ex.fn.Pkg.Pkg.Name() + "." + fid.Name)
+			f := e.ex.eng.lookupFunc(e.scopePkg().Name() + "." + fid.Name)
 			if f == nil || f.Signature.Results().Len() == 0 {
 				return e.fail("rval: unknown function %s", fid.Name)
 			}
